@@ -5,7 +5,7 @@ from vk.kernels import c12 as K
 
 def run(rep, tier, seed, args):
     jobs = K.jobs(tier)
-    n = 4 if tier == 'quick' else 6
+    n = 4 if tier == 'quick' else 8
     rep.rule = ('one case = one path of the real parse_attrs / parse_set_triple / OutSet operator for one enumerated shape (type x any_inputs x '
                 'presence pattern of the five keys; operator x finite/co-finite operands) with the CONTENTS of every present set symbolic '
                 f'(all subsets of a universe of {n} names at once); non-trivial = the path reached an obligation; paths are distinct (disjoint path conditions)')
